@@ -479,7 +479,9 @@ func setMapField(field reflect.Value, fieldType reflect.Type, isPtr bool, mapArr
 // setFieldFromString sets a struct field from a string default value.
 //
 // A pointer field gets a freshly allocated pointee: calling SetString/SetInt on
-// the pointer Value itself panics.
+// the pointer Value itself panics. Every scalar kind parses at its own width,
+// so a `default=` on an int32, a uint or a float32 field is honoured instead of
+// being answered with "not supported".
 func setFieldFromString(field reflect.Value, fieldType reflect.Type, s string) error {
 	if fieldType.Kind() == reflect.Ptr {
 		ptr := reflect.New(fieldType.Elem())
@@ -492,14 +494,20 @@ func setFieldFromString(field reflect.Value, fieldType reflect.Type, s string) e
 	switch fieldType.Kind() {
 	case reflect.String:
 		field.SetString(s)
-	case reflect.Int64, reflect.Int:
-		v, err := strconv.ParseInt(s, 10, 64)
+	case reflect.Int, reflect.Int8, reflect.Int16, reflect.Int32, reflect.Int64:
+		v, err := strconv.ParseInt(s, 10, fieldType.Bits())
 		if err != nil {
 			return fmt.Errorf("parsing int default %q: %w", s, err)
 		}
 		field.SetInt(v)
-	case reflect.Float64:
-		v, err := strconv.ParseFloat(s, 64)
+	case reflect.Uint, reflect.Uint8, reflect.Uint16, reflect.Uint32, reflect.Uint64:
+		v, err := strconv.ParseUint(s, 10, fieldType.Bits())
+		if err != nil {
+			return fmt.Errorf("parsing uint default %q: %w", s, err)
+		}
+		field.SetUint(v)
+	case reflect.Float32, reflect.Float64:
+		v, err := strconv.ParseFloat(s, fieldType.Bits())
 		if err != nil {
 			return fmt.Errorf("parsing float default %q: %w", s, err)
 		}
